@@ -188,6 +188,11 @@ func install() {
 		t := e.newTask(fmt.Sprintf("lib@%d", site), true)
 		t.site = site
 		t.phase = e.running.phase
+		if p := e.w.Sched.LateProb; p > 0 && e.w.Sched.LateMax > 0 && e.rng != nil && e.rng.Float() < p {
+			// a freshly started goroutine may not get a processor for a while
+			t.snooze = e.res.Decisions + 1 + int64(e.rng.Intn(e.w.Sched.LateMax))
+			e.res.Faults["goroutine-started-late"]++
+		}
 		return t
 	}
 	verifrt.TimerHook = func(site int32) any {
@@ -821,6 +826,10 @@ func (e *Engine) bubble() {
 	var soloSteps []int64
 	if solo {
 		for i := range w.Tasks {
+			// every phase starts like a fresh process: a solo run must not warm package-level state
+			// (lazily built tables, pools) for the interleaved run it is the reference of
+			resetGlobals()
+			verifrt.ResetSync()
 			e.tasks = nil
 			e.rng = world.NewRng(1)
 			e.burstOn = false
@@ -847,6 +856,10 @@ func (e *Engine) bubble() {
 		e.logf("solo done")
 	}
 	// main phase
+	if solo {
+		resetGlobals()
+		verifrt.ResetSync()
+	}
 	e.tasks = nil
 	e.lastRun = -1
 	e.rng = world.NewRng(w.Sched.Seed)
